@@ -44,7 +44,7 @@ def _structure(draw):
                            patterns=("interleaved", "random", "banks", "dense"), ns_range=(600, 600)))
     spec["n_acq"] = spec["n"]
     spec["nsync"] = 1
-    spec["fs"] = 30000.0
+    # the calibrated sampling rate of the probe (imSampRate) is what st_spec drew: 30000 or a measured value next to it
     if draw(st.integers(0, 3)) == 0:
         spec["range"], spec["maxint"] = draw(st.sampled_from([(0.61, 4096), (0.5, 2048), (1.0, 32768), (0.7, 8192)]))
     big = spec["n"] == 384
